@@ -564,7 +564,7 @@ func runC08(ctx *core.Ctx, pool *par.Pool) {
 	if !ctx.Quick() {
 		cfgs = []pagedrv.Cfg{pagedrv.CfgA, pagedrv.CfgB, pagedrv.CfgC, pagedrv.CfgF}
 		depth, seedDepth = 8, 7
-		ctx.SetBudget(28 * time.Minute)
+		ctx.SetBudget(15 * time.Minute)
 	}
 	var total xstate.Stats
 	plans, effective, histories, calls := 0, 0, 0, 0
